@@ -204,6 +204,16 @@ void UncompressedFile::write(const std::shared_ptr<LogContainer> & logContainer)
         static_cast<uint32_t>(m_tellp - m_tellg) < m_bufferSize;
     });
 
+    /* close a partly filled log container, so that the appended one follows it without overlap */
+    std::shared_ptr<LogContainer> openLogContainer = logContainerContaining(m_tellp);
+    if (openLogContainer) {
+        std::streamoff offset = m_tellp - openLogContainer->filePosition;
+        if (offset > 0) {
+            openLogContainer->uncompressedFile.resize(offset);
+            openLogContainer->uncompressedFileSize = offset;
+        }
+    }
+
     /* append logContainer */
     m_data.push_back(logContainer);
     logContainer->filePosition = m_tellp;
